@@ -205,7 +205,13 @@ func (c *certStatusChecker) executeInitialStatusAction(ctx context.Context,
 			return fmt.Errorf("recovery: error updating local storage with agglayer certificate: %w", err)
 		}
 	case InitialStatusActionInsertNewCert:
-		if _, err := c.updateLocalStorageWithAggLayerCert(ctx, action.cert); err != nil {
+		retryCount := 0
+		if localCert != nil && action.cert != nil && localCert.Height == action.cert.Height {
+			// the agglayer certificate replaces the local one of the same height, so it is a retry of it
+			// (the history table is keyed by height and retry count)
+			retryCount = localCert.RetryCount + 1
+		}
+		if _, err := c.updateLocalStorageWithAggLayerCertRetry(ctx, action.cert, retryCount); err != nil {
 			return fmt.Errorf("recovery: error new local storage with agglayer certificate: %w", err)
 		}
 	default:
@@ -217,6 +223,13 @@ func (c *certStatusChecker) executeInitialStatusAction(ctx context.Context,
 // updateLocalStorageWithAggLayerCert updates the local storage with the certificate from the AggLayer
 func (c *certStatusChecker) updateLocalStorageWithAggLayerCert(ctx context.Context,
 	aggLayerCert *agglayertypes.CertificateHeader) (*types.Certificate, error) {
+	return c.updateLocalStorageWithAggLayerCertRetry(ctx, aggLayerCert, 0)
+}
+
+// updateLocalStorageWithAggLayerCertRetry updates the local storage with the certificate from the AggLayer,
+// storing it with the given retry count
+func (c *certStatusChecker) updateLocalStorageWithAggLayerCertRetry(ctx context.Context,
+	aggLayerCert *agglayertypes.CertificateHeader, retryCount int) (*types.Certificate, error) {
 	cert, err := newCertificateInfoFromAgglayerCertHeader(aggLayerCert)
 	if err != nil {
 		return nil, fmt.Errorf("error creating certificate from AggLayer header: %w", err)
@@ -224,6 +237,7 @@ func (c *certStatusChecker) updateLocalStorageWithAggLayerCert(ctx context.Conte
 	if cert == nil {
 		return nil, nil
 	}
+	cert.Header.RetryCount = retryCount
 
 	c.log.Infof("setting initial certificate from AggLayer: %s", cert.String())
 	return cert, c.storage.SaveLastSentCertificate(ctx, *cert)
